@@ -888,14 +888,14 @@ public:
       std::string suffix{};
       unsigned const route{c02route::route_of(_input, static_cast<unsigned>(this->entry_))};
       fp::result<Ch, Val> const res0{this->parse(std::move(_input), suffix)};
-      // the result (every failure; every fourth success, chosen by the input) travels through a special member of
+      // the result (one input in ten, chosen by the input itself, which keeps the exhaustive enumerations fast) travels through a special member of
       // either<error<Ch>, Val>, the error through one of error<Ch> (c02_route.hpp)
       std::string mm{};
-      bool const routed{res0.has_failure() || route % 4U == 0U};
+      bool const routed{route % 10U == 0U};
       fp::result<Ch, Val> const res{
           routed ? c02route::routed_result<Ch, Val>(
                        mm,
-                       route / 4U,
+                       route / 10U,
                        res0,
                        [](Val const &_v) { return Val::list(std::vector<Val>{_v, Val::integer(113)}); },
                        [](Val const &_v)
@@ -912,7 +912,8 @@ public:
         print(res.get_success_unsafe(), out);
         return out + suffix + mm;
       }
-      if (c02route::routed_error<Ch>(mm, route / 4U, res.get_failure_unsafe()).is_fatal())
+      if (routed ? c02route::routed_error<Ch>(mm, route / 10U, res.get_failure_unsafe()).is_fatal()
+               : res.get_failure_unsafe().is_fatal())
       {
         ++_counts.fatal;
         return "fatal" + suffix + mm;
